@@ -2,7 +2,7 @@
    statements: every store reached by batches is sorted, the modelled engine answers every read like the
    sorted-map reference, and the answer does not depend on the engine kind *)
 From ZV Require Import Common.Bytes Common.BytesFacts Eng.Consts Eng.Model
-  Eng.ProofsOrder Eng.ProofsMap Eng.ProofsBatch Eng.ProofsIter Eng.ProofsRadix.
+  Eng.ProofsOrder Eng.ProofsMap Eng.ProofsBatch Eng.ProofsIter Eng.ProofsRadix Eng.ProofsGen.
 Open Scope Z_scope.
 
 (* ---------- what the ideal cursor means ---------- *)
@@ -166,9 +166,8 @@ Lemma run_step_sorted k d s :
   ksorted (committed d) -> ksorted (committed (fst (run_step k d s))).
 Proof.
   intro Hs. destruct s; simpl; auto.
-  - unfold db_commit. destruct (apply_ops (committed d) (pending d)) eqn:E; simpl; auto.
-    eapply apply_ops_sorted; eauto.
-  - destruct k; auto.
+  unfold db_commit. destruct (apply_ops (committed d) (pending d)) eqn:E; simpl; auto.
+  eapply apply_ops_sorted; eauto.
 Qed.
 
 (* every store an engine can reach from the empty one is a sorted map *)
@@ -197,11 +196,18 @@ Fixpoint ref_script (d : db) (ss : list step) : list result :=
   | s :: r => let '(d', x) := ref_step d s in x :: ref_script d' r
   end.
 
-(* raw cursors with bounds are engine specific (pebble/rocksdb clamp them): outside the contract *)
-Definition step_portable (s : step) : bool :=
+(* what the contract covers per engine kind: on rocksdb (KPrefix) range reads must be prefix local and raw
+   cursors are not covered at all; elsewhere raw cursors with bounds are engine specific (pebble clamps them) *)
+Definition step_portable (k : ekind) (s : step) : bool :=
   match s with
-  | SCursor None None _ _ => true
-  | SCursor _ _ _ _ => false
+  | SIter o _ => read_in_contract k o
+  | SRangeIter o _ => read_in_contract k o
+  | SCursor mn mx _ _ =>
+      match k, mn, mx with
+      | KPrefix, _, _ => false
+      | _, None, None => true
+      | _, _, _ => false
+      end
   | _ => true
   end.
 
@@ -210,20 +216,24 @@ Proof.
   unfold engine_view. destruct bounded; auto. apply filter_all_true. intros; reflexivity.
 Qed.
 
+Lemma read_in_contract_no_limit k o : read_in_contract k (no_limit o) = read_in_contract k o.
+Proof. destruct k; reflexivity. Qed.
+
 Lemma run_step_ref k d s :
-  ksorted (committed d) -> step_portable s = true -> run_step k d s = ref_step d s.
+  ksorted (committed d) -> step_portable k s = true -> run_step k d s = ref_step d s.
 Proof.
   intros Hs Hp. destruct s; simpl; auto.
-  - now rewrite wrapper_correct.
-  - now rewrite range_iterator_correct.
-  - destruct min, max; try discriminate. destruct k.
-    + now rewrite radix_script_is_ideal.
-    + unfold get_iterator. now rewrite engine_view_unbounded.
-    + unfold get_iterator. now rewrite engine_view_unbounded.
+  - simpl in Hp. now rewrite engine_range_limit_correct.
+  - simpl in Hp. rewrite engine_range_limit_correct; auto; now rewrite ?read_in_contract_no_limit.
+  - simpl in Hp. unfold engine_cursor_script.
+    destruct k; [| | |discriminate]; destruct min, max; try discriminate.
+    + now rewrite rops_generic, radix_script_is_ideal.
+    + now rewrite cops_ideal.
+    + unfold get_iterator. now rewrite engine_view_unbounded, cops_ideal.
 Qed.
 
 Theorem script_refines_reference k ss : forall d,
-  ksorted (committed d) -> forallb step_portable ss = true ->
+  ksorted (committed d) -> forallb (step_portable k) ss = true ->
   run_script k d ss = ref_script d ss.
 Proof.
   induction ss as [|s r IH]; intros d Hs Hp; simpl; auto.
@@ -236,8 +246,8 @@ Qed.
 
 (* hence no script's outcome depends on the engine kind *)
 Corollary script_engine_independent k1 k2 ss :
-  forallb step_portable ss = true ->
+  forallb (step_portable k1) ss = true -> forallb (step_portable k2) ss = true ->
   run_script k1 db_empty ss = run_script k2 db_empty ss.
 Proof.
-  intro Hp. rewrite !script_refines_reference; auto; exact I.
+  intros H1 H2. rewrite !script_refines_reference; auto; exact I.
 Qed.
